@@ -220,6 +220,19 @@ def py_valid(cfg):
     return bad
 
 
+def rule_violations(cfg):
+    """rules of check_config beyond the property's list that an ACCEPTED configuration must satisfy: quantis cannot
+    run with a λ₋₁ — any value, the legal 0.0 included (/repo b3eda5b; `is not False`, not truthiness)"""
+    try:
+        tis = cfg["simulation"]["tis_set"]
+        if tis.get("quantis", False) and tis.get("lambda_minus_one", False) is not False:
+            return ["quantis-with-lambda-minus-one"]
+    except Exception:  # noqa: BLE001
+        pass
+    return []
+
+
+QUANTIS_SIG = "C18:quantis-with-lambda-minus-one-accepted"
 NUMERIC_CLAUSE = "interfaces-not-numbers"
 SIZE_CLAUSE = "current-size-differs-from-interfaces"
 SIZE_SIG = "C18:restart:current-size-differs-from-interfaces"
@@ -1652,6 +1665,10 @@ def judge(ctx, real, c, code_setup, cfg, do_init, do_restart, families=(), wcase
         return "malformed"
     if cfg is not None:
         bad = safe_valid(cfg)
+        if rule_violations(cfg):
+            fail_once(ctx, QUANTIS_SIG, "setup_config accepted quantis together with lambda_minus_one = "
+                      f"{cfg['simulation']['tis_set'].get('lambda_minus_one')!r} (must be a TOMLConfigError for every "
+                      "value, 0.0 included)", {"case": obj, "expect": "rejected with TOMLConfigError"})
         if d_in is not None:
             chg = settings_changed(d_in, cfg)
             if chg:
@@ -1930,6 +1947,10 @@ def judge_restart(ctx, real, c, variant, two_files, code, cfg, d_in=None, size=N
         return "restart:malformed"
     if cfg is not None:
         bad = safe_valid(cfg)
+        if rule_violations(cfg):
+            fail_once(ctx, QUANTIS_SIG, "setup_config accepted a restart file with quantis together with "
+                      f"lambda_minus_one = {cfg['simulation']['tis_set'].get('lambda_minus_one')!r}",
+                      dict(rep, expect="rejected with TOMLConfigError"))
         if d_in is not None:
             chg = settings_changed(d_in, cfg, restart=True)
             if chg:
